@@ -472,9 +472,10 @@ fn has_wi(acts: &[Act]) -> bool {
 pub fn run(rp: &Replay, st: &mut Stats) -> Option<Violation> {
     let acts: Vec<Act> = rp.steps.iter().map(parse).collect();
     let init_if = rp.config["init_if"].as_bool().unwrap_or(true);
-    // without monitor mode pushfq shows the native IF (always 1): only scenarios that never read
-    // the flag can run there
-    let use_monitor = rp.config["monitor"].as_bool().unwrap_or(true) || has_wi(&acts);
+    // without monitor mode pushfq shows the native IF (always 1), and any of the wrappers may read
+    // the flag (a round-8 seeded change made enable_and_hlt do so): every run single-steps
+    let _ = has_wi(&acts);
+    let use_monitor = true;
     let w = world();
     w.cpu = Cpu::default();
     w.cpu.iflag = init_if;
